@@ -39,6 +39,16 @@ CLAIMED = {
    text="TLC enumerates all key functions over 2-4 preimages and 2-4 step histories; the replay files one response under the real hashes of every preimage the model collides, then probes msg hit, wire hit, scoped probe, chase hop, cut msg/wire, failure msg/wire, GetWithContext, ReplaceIfCurrent and purge for 7 audiences; rdata carries the identity it was stored for, so a reply is judged by the property predicate on wire-octet identity.",
    design_ref="2.8",
    note="Byte-level key parity (Key/KeyWire/KeyWithPrefix/KeyWireWithPrefix over label bytes 0-255) is sampled (4,000 / 60,000 names per run), not enumerated. Four recorded findings, all needing raw bytes >= 0x80 or non-ASCII letters in presentation text (FailureCache and nxdomain-cut normalise with dns.CanonicalName; Store.Purge's scoped sweep uses strings.EqualFold). Zone-kind failures and RFC 8198 proofs are not modelled here (C13/C02)."),
+ "C02": dict(
+   technique="TLA+ spec Denial.tla (zone model with wildcards, ENTs, delegations, DNAME, opt-out; NSEC chain and NSEC3 ring; Truth(q); RFC 4035/5155/8020/8198 acceptance rules over subsets of genuine records, optionally polluted with sibling/child records; admission/expiry order into the denial-proof index and subtree-cut cache) model-checked with TLC (Sound, AggressiveSound, AggressiveNeverOptOut, OptOutNeverSecure, MixedRefused, FullChainProves, SynthesisedIsTrue); every enumerated (zone, subset, query) built into real NSEC/NSEC3 records and passed to the real verifiers and classifiers; admission behaviours replayed through Store.RecordDenialProof/RecordNXDomainCut and Cache.ServeDNS with a virtual clock",
+   text="Soundness of the acceptance rules is proved on the model for every zone x subset x query in the bound (97k states quick, 767k thorough); the replay feeds 287k (quick) to 3.9M (thorough) concrete (records, question) evaluations to VerifyNameErrorNSEC/VerifyNODATANSEC/VerifyDelegationNSEC, the NSEC3 *ForZoneWithWork verifiers and the EvaluateAggressive* classifiers and judges every accepted or synthesised denial against Truth.",
+   design_ref="2.14",
+   note="Two defects found and repaired (fix: bf324a7 ENT NXDOMAIN, c9b5642 parent-side NSEC/NSEC3 at a zone cut). The code being stricter than the model (NSEC ENT NODATA, apex-DS NODATA) is drift. Hash collisions are model-only; VerifyWildcardAnswer* is driven only through C01."),
+ "C17": dict(
+   technique="TLA+ specs IpSet.tla (the ipset algorithm itself over W-bit addresses: normalise, sort, running max, binary-search Contains, all sort orders of equal keys) and Gate.tla (accesslist gate, first-match views, internal sub-pipelines without ClientOnly handlers) model-checked exhaustively with TLC; every enumerated prefix list / gate configuration scaled into real IPv4/IPv6 space and replayed on the real ipset, accesslist, views handlers and the real default chain",
+   text="TLC enumerates all ordered lists of <=3 W=4 prefixes (any host bits, /0../W, both families, malformed entries) x all addresses and checks Contains = exists-prefix; the replay places each case at 13+ bit offsets (word boundary, /0, /32, /128, v4-mapped block) and compares ipset.Contains with two naive oracles on 8-9M probes; the gate model's 99k terminal states run on the real handlers (wire-born and message-born, udp/tcp/doh/doq doubles) and on the registered default chain: denied => no bytes, nothing downstream, cache untouched.",
+   design_ref="2.10",
+   note="W=5 with every host-bit pattern is opt-in (VERIF_C17_DEEP); ratelimit/reflex exemption of internal queries is structural only (the sentinel address is loopback); IPv4-mapped prefix entries (::ffff:a.b.c.0/120) are counted as ambiguous, not judged."),
 }
 
 NOT_YET = {}
